@@ -1,10 +1,35 @@
 import Driver.Loop
+import Midgard.Model.Sp3
+import Midgard.Generated.Sp3Cols
 
-/-! Driver for C13: placeholder until the model is written. -/
+/-! Driver for C13 (SP3):  `c13 file <hexfile>` → JSON of header meta and entries (exact rationals,
+`null` = NaN); `RAISES` when the model says the real code raises. -/
 namespace Driver.C13
+open Midgard.Proto Midgard.Text Midgard.Sp3 Midgard.Generated.Sp3
+
+def q (s : String) : String := "\"" ++ s ++ "\""
+def orat : Option Rat → String
+  | some r => q (showRat r)
+  | Option.none => "null"
+
+def showMeta (m : Meta) : String :=
+  "[" ++ ",".intercalate (m.map fun (k, v) => "[" ++ q (encodeHex k) ++ "," ++
+    (match v with | .str s => "{\"s\":" ++ q (encodeHex (asString s)) ++ "}" | .num r => "{\"f\":" ++ q (showRat r) ++ "}") ++ "]") ++ "]"
+
+def showEntry (e : Entry) : String :=
+  "{\"time\":[" ++ ",".intercalate ([e.epoch.year, e.epoch.month, e.epoch.day, e.epoch.hour, e.epoch.minute, e.epoch.sec7].map toString) ++ "]" ++
+  ",\"sat\":" ++ q (encodeHex (asString e.sat)) ++ ",\"system\":" ++ q (encodeHex (asString e.system)) ++
+  ",\"pos\":[" ++ ",".intercalate (e.pos.map orat) ++ "],\"clk\":" ++ orat e.clk ++
+  ",\"psig\":[" ++ ",".intercalate (e.posSigma.map orat) ++ "],\"csig\":" ++ orat e.clkSigma ++
+  ",\"dsec\":" ++ q (showRat (datasetSeconds e.epoch)) ++ "}"
 
 def handle : List String → Option String
-  | _ => none
+  | ["c13", "file", h] => do
+    let t ← (decodeHex? h).map ofString
+    match parseFile factors headerDefs epochFields recP t with
+    | Option.none => pure "RAISES"
+    | some p => pure ("{\"meta\":" ++ showMeta p.hdr ++ ",\"entries\":[" ++ ",".intercalate (p.entries.map showEntry) ++ "]}")
+  | _ => Option.none
 
 end Driver.C13
 
